@@ -16,6 +16,7 @@ package region
 // for TLC (Trace_RegionClient).
 
 import (
+	"strings"
 	"sync/atomic"
 	"context"
 	"encoding/json"
@@ -42,6 +43,9 @@ type rcReport struct {
 func (r *rcReport) bad(sig, f string, a ...any) {
 	if len(r.Violations) < 40 {
 		r.Violations = append(r.Violations, map[string]any{"sig": sig, "desc": fmt.Sprintf(f, a...)})
+	}
+	if !strings.HasPrefix(sig, "harness:") {
+		verifsim.SetStallVerdict(sig, fmt.Sprintf(f, a...)) // (reported should a later scenario never end)
 	}
 }
 
